@@ -4,6 +4,8 @@ CONSTANTS
   Vals = {1}
   MaxLevels = {1, 2, 5}
   RichKeys <- RichAll
+  Acts <- AllActs
+  MaxParked = 1
   MaxCommits = 2
   Log <- LogLast
   Depth = 0
